@@ -29,7 +29,7 @@ def parseVtx (s : String) : Vtx :=
 /-- `reflect.Type.String()` of the harness's type universe (the harness checks this convention when it starts) -/
 def tyNameOf (t : Nat) : String :=
   if t ≤ 9 then s!"main.K{t}" else if t ≥ 10 ∧ t ≤ 13 then s!"main.I{t - 10}" else if t = 20 then "*main.E0"
-  else if t = 1000 then "error" else if t = 21 then "main.L0" else if t = 22 then "[]int" else s!"?{t}"
+  else if t = 1000 then "error" else if t = 21 then "main.L0" else if t = 22 then "[]int" else if t = 23 then "*main.I0" else s!"?{t}"
 
 def showVtx : Vtx → String
   | .root => "R"
